@@ -190,6 +190,7 @@ def build(w):
     )
     lost_post = {
         'failed_observably': 'job._event.flag and not job._success',
+        'only_own_cache_entry': 'only_key_changed(job._cache, job._job)',
         'assigned_once': 'g.assigned[job._job] == old(g.assigned[job._job]) + 1',
         'no_other_job_touched': 'only_changed_at("Job._success", job) and only_changed_at("Job._value", job) and '
                                 'only_changed_at("Event.flag", job._event) and '
